@@ -101,7 +101,7 @@ func checkSimulationCopies(c *core.Ctx, rule string) {
 						}
 						what = append(what, "nil")
 					case *ssa.Call:
-						name := core.CalleeName(&x.Call)
+						name := core.CalleeName(core.NormCall(&x.Call))
 						what = append(what, name)
 						if !strings.HasSuffix(name, "swap.Limit).clone") {
 							good = false
@@ -431,18 +431,18 @@ func checkFailFee(c *core.Ctx, rule, prerule string) {
 				continue
 			}
 			call, ok := core.Unwrap(bin.X).(*ssa.Call)
-			if !ok || core.CalleeName(&call.Call) != "(*math/big.Int).Sign" {
+			if !ok || core.CalleeName(core.NormCall(&call.Call)) != "(*math/big.Int).Sign" {
 				continue
 			}
 			k, _ := core.ConstInt(bin.Y)
-			bal, ok := core.Unwrap(call.Call.Args[0]).(*ssa.Call)
+			bal, ok := core.Unwrap(core.NormCall(&call.Call).Args[0]).(*ssa.Call)
 			if !ok {
 				continue
 			}
-			if !strings.HasSuffix(core.CalleeName(&bal.Call), ".GetBalance") {
+			if !strings.HasSuffix(core.CalleeName(core.NormCall(&bal.Call)), ".GetBalance") {
 				continue
 			}
-			bs := &core.Site{Fn: fn, Instr: bal, Common: &bal.Call, Callee: core.CalleeName(&bal.Call)}
+			bs := &core.Site{Fn: fn, Instr: bal, Common: &bal.Call, Callee: core.CalleeName(core.NormCall(&bal.Call))}
 			if bin.Op == token.EQL && k == 1 && g.PassTrue && core.SameValue(bs.Arg(0), payer) && strings.HasSuffix(core.Path(bs.Arg(1)), ".CommissionCoin()") {
 				capOK = true
 			}
@@ -452,7 +452,7 @@ func checkFailFee(c *core.Ctx, rule, prerule string) {
 		amt := sub.Arg(2)
 		capped := false
 		for _, o := range core.Origins(amt) {
-			if call, ok := o.(*ssa.Call); ok && core.CalleeName(&call.Call) == "(*math/big.Int).Set" {
+			if call, ok := o.(*ssa.Call); ok && core.CalleeName(core.NormCall(&call.Call)) == "(*math/big.Int).Set" {
 				// Set(balance) guarded by balance.Cmp(commission) == -1
 				for _, g := range core.GatesBefore(call) {
 					if isCmpConst(g.If.Cond, token.EQL, -1) && g.PassTrue || isCmpConst(g.If.Cond, token.LSS, 0) && g.PassTrue {
@@ -468,8 +468,8 @@ func checkFailFee(c *core.Ctx, rule, prerule string) {
 			for _, o := range core.Origins(amt) {
 				if ex, ok := o.(*ssa.Extract); ok {
 					if call, ok := ex.Tuple.(*ssa.Call); ok && call.Call.IsInvoke() && call.Call.Method.Name() == "PairSellWithOrders" {
-						for _, oo := range core.Origins(call.Call.Args[2]) {
-							if cc, ok := oo.(*ssa.Call); ok && core.CalleeName(&cc.Call) == "(*math/big.Int).Set" {
+						for _, oo := range core.Origins(core.NormCall(&call.Call).Args[2]) {
+							if cc, ok := oo.(*ssa.Call); ok && core.CalleeName(core.NormCall(&cc.Call)) == "(*math/big.Int).Set" {
 								capped = true
 							}
 						}
@@ -525,7 +525,7 @@ func isCmpConst(cond ssa.Value, op token.Token, k int64) bool {
 		return false
 	}
 	call, ok := core.Unwrap(bin.X).(*ssa.Call)
-	if !ok || !strings.HasSuffix(core.CalleeName(&call.Call), ".Cmp") {
+	if !ok || !strings.HasSuffix(core.CalleeName(core.NormCall(&call.Call)), ".Cmp") {
 		return false
 	}
 	kk, ok := core.ConstInt(bin.Y)
